@@ -130,11 +130,38 @@ func vGzipRead(z *gzip.Reader, p []byte) (int, error) { return vCur.body.Read(p)
 // everything read; any other error is returned. "EOF-like" is io.EOF or, as in the library's
 // isEOFLikeError, any error whose text contains "reset by peer".
 func vParseStream(r io.Reader, defaultTimestamp int64, isGzipped bool, callback func(rows []parser.Row) error, errLogger func(string)) error {
-	var all []byte
-	buf := make([]byte, 16)
+	var all []byte // every byte accepted so far
+	tailLen := 0   // bytes after the last newline (the library keeps them for the next block)
+	var held error // error held back by the library's buffered reader
+	buf := make([]byte, 64)
 	for i := 0; i < 64; i++ {
-		n, err := r.Read(buf)
+		var n int
+		var err error
+		switch {
+		case held != nil:
+			n, err, held = 0, held, nil
+		case tailLen == 0:
+			// block buffer empty: bufio reads straight into it and the error comes with the data;
+			// ReadLinesBlock looks at the error only when no bytes were read
+			n, err = r.Read(buf)
+			if n > 0 {
+				err = nil
+			}
+		default:
+			// a partial line is pending: bufio buffers the data and reports the error on the next call
+			n, err = r.Read(buf)
+			if n > 0 {
+				held, err = err, nil
+			}
+		}
 		all = append(all, buf[:n]...)
+		tailLen = 0
+		for k := len(all) - 1; k >= 0 && all[k] != '\n'; k-- {
+			tailLen++
+		}
+		if n > 0 {
+			continue
+		}
 		if err == io.EOF || (err != nil && vContains(err.Error(), "reset by peer")) {
 			return callback(vRows(string(all)))
 		}
@@ -326,7 +353,9 @@ func VProxy(mode int) {
 
 	// classification of the real scrape from what the scripted target and writer observed
 	attempted := jobKnown && hash == "1"
-	realOK := attempted && !tg.doFails && tg.status == 200 && !(tg.gzipped && tg.gzipFails) && !body.failed && body.sawEOF && !w.broken && stop == ""
+	// the real scrape is successful iff the target delivered its whole body; a broken connection to
+	// Prometheus does not make the target unhealthy (and the parser does not even notice it)
+	realOK := attempted && !tg.doFails && tg.status == 200 && !(tg.gzipped && tg.gzipFails) && !body.failed && body.sawEOF && stop == ""
 	aborted := crashed || w.broken
 	// a handler that returns normally has produced a complete response: the committed status,
 	// or an implicit 200 if it never wrote anything
@@ -354,10 +383,18 @@ func VProxy(mode int) {
 			}
 		} else {
 			zzv.Cover("proxy.ok")
-			zzv.Assert("C12.ok.status", complete200)
-			zzv.Assert("C12.ok.bytes", string(w.body) == body.data)
+			if !w.broken {
+				zzv.Assert("C12.ok.status", complete200)
+				zzv.Assert("C12.ok.bytes", string(w.body) == body.data)
+			} else {
+				zzv.Cover("proxy.ok.prombroken")
+				// what Prometheus accepted before its connection broke is a prefix of the body
+				zzv.Assert("C12.broken.prefix", len(w.body) <= len(body.data) && string(w.body) == body.data[:len(w.body)])
+			}
 			zzv.Assert("C12.ok.ctype", w.header.Get("Content-Type") == tg.ctype && (w.status == 0 || w.ctypeAtSend == tg.ctype))
-			if st != nil {
+			// (when Prometheus' own connection broke, the parser may or may not notice the write error -
+			// it depends on whether a partial line was pending - so the recorded health is not asserted)
+			if st != nil && !w.broken {
 				zzv.Assert("C13.ok.health", st.Health == pscrape.HealthGood && st.LastError == "")
 				if body.data != "" {
 					zzv.Assert("C14.ok.total", st.TotalSeries == vPayloadSamples)
@@ -378,7 +415,7 @@ func VProxy(mode int) {
 	}
 	zzv.Observe("proxy", attempted, realOK, w.status, len(w.body), crashed, tg.requests)
 	if st != nil {
-		zzv.Observe("status", string(st.Health), st.ScrapeTimes-st0.ScrapeTimes, st.LastError != "")
+		zzv.Observe("status", string(st.Health), st.ScrapeTimes-st0.ScrapeTimes)
 	}
 	zzv.Cover("proxy.end")
 }
